@@ -1,5 +1,6 @@
 import McpModel.Base.Proto
 import McpModel.ClientWrite.Monitor
+import McpModel.ClientWrite.Open
 /-!
 Driver for the `write` stream of E6 (C01; go/harness/mcp/zz_verif_clientwrite_test.go): one case = one message sent
 through the real ClientSession over the real StreamableClientTransport.
@@ -10,6 +11,13 @@ through the real ClientSession over the real StreamableClientTransport.
   posts                                        obs n=<POSTs of the message> tok=<0/1 per POST> auth=<Authorize calls>
   end                                          obs result | done | err:<kind> | hang
   probe                                        obs ok | err | skipped
+
+The opening of the standalone stream (connectStandaloneSSE; model `ClientWrite.openStandalone`, monitor `omonitor`):
+
+  reset
+  oscn mr=<MaxRetries field> fails=<n> ans=st<code>[e]      obs ok      (e: under Content-Type text/event-stream)
+  open                                                      obs gets=<GETs made>
+  probe                                                     obs ok | err
 
 `posts`, `end`, `probe` are compared with the model (`ClientWrite.run`); the C01 monitor (`ClientWrite.monitor`, typed,
 proved in Props.lean) judges the implementation's observation at `probe`, when the observation is complete.
@@ -75,7 +83,20 @@ def Clause.text : Clause → String
   | .keeps => "C01: a per-message rejection (or a completed request) left the connection unusable: the next call failed"
   | .gone => "C01+C09: the server answered that the session is gone (404) but a later call on the session succeeded"
 
+def OClause.text : OClause → String
+  | .bound => "C09: bounded_fruitless_retries: the opening of the standalone stream made more than maxRetries+1 attempts, or another one after an answer"
+  | .declined => "C01: the server declined the standalone stream (405, no event stream, a 4xx) and the session lost its connection: the next call failed"
+  | .exhausted => "C09: every attempt to open the standalone stream failed but the connection was not failed: a later call succeeded"
+
+def parseOAns (s : String) : Option OAns :=
+  if !s.startsWith "st" then none else
+  let e := s.endsWith "e"
+  let d := if e then String.ofList ((dropS s 2).toList.dropLast) else dropS s 2
+  d.toNat?.map (fun c => .st c e)
+
 structure DState where
+  oscn : Option OScn := none
+  gets : Nat := 0
   scn : Option Scn := none
   posts : Nat := 0
   auths : Nat := 0
@@ -91,6 +112,8 @@ def engine : Engine DState where
         let kind ← match kv rest "kind" with | some "call" => some Kind.call | some "notif" => some Kind.notif | _ => none
         let auth ← (kv rest "auth").bind parseAuth
         let ts ← match kv rest "ts" with | none => some TS.fine | some t => parseTS t
+        -- bg=posthang: another call of the session is in flight meanwhile; the calls of a session share nothing in the model
+        match kv rest "bg" with | none => pure () | some "posthang" => pure () | some _ => none
         let cancel ← match kv rest "cancel" with | some "0" => some false | some "1" => some true | _ => none
         let a1 ← (kv rest "a1").bind parseAns
         let a2 ← (kv rest "a2").bind parseAns
@@ -99,6 +122,21 @@ def engine : Engine DState where
       match r with
       | some s => ({ scn := some s }, { model := "ok" })
       | none => ({}, { model := "bad-scn" })
+    | "oscn" :: rest =>
+      let r : Option OScn := do
+        let mr ← (kv rest "mr").bind String.toInt?
+        let fails ← (kv rest "fails").bind String.toNat?
+        let ans ← (kv rest "ans").bind parseOAns
+        some { mr := Generated.ClientStream.maxRetriesOf mr, fails := fails, ans := ans }
+      match r with
+      | some s => ({ oscn := some s }, { model := "ok" })
+      | none => ({}, { model := "bad-scn" })
+    | ["open"] =>
+      match d.oscn with
+      | none => (d, { model := "bad-op" })
+      | some s =>
+        let n := ((kv (words impl) "gets").bind String.toNat?).getD 0
+        ({ d with gets := n }, { model := s!"gets={(openStandalone s).gets}" })
     | ["posts"] =>
       match d.scn with
       | none => (d, { model := "bad-op" })
@@ -111,6 +149,13 @@ def engine : Engine DState where
       | none => (d, { model := "bad-op" })
       | some s => ({ d with end_ := parseEndObs impl }, { model := showEnd (run s).end_ })
     | ["probe"] =>
+      if let some os := d.oscn then
+        match parseProbe impl with
+        | some p =>
+          (d, { model := showProbe (oobsOf (openStandalone os)).probe,
+                violated := (omonitor os { gets := d.gets, probe := p }).map OClause.text })
+        | none => (d, { model := "bad-op" })
+      else
       match d.scn, d.end_, parseProbe impl with
       | some s, some e, some p =>
         let o : Obs := { posts := d.posts, auths := d.auths, end_ := e, probe := p }
